@@ -86,9 +86,10 @@ def run(ctx):
     quick = ctx.tier == "quick"
     rng = random.Random(ctx.seed)
     ctx.cov["rule"] = ("cases = (string collection, parameter set, LCP or not, threads 1..4, shim schedule): shaped collections (duplicates, shared prefixes, all equal, empty strings, "
-                       "high bytes, one / two buckets, key-sized prefixes) of 0..300 (thorough: ..1500) strings, each sorted under 6 configurations drawn from 8 parameter sets "
+                       "high bytes, one / two buckets, key-sized prefixes) of 0..300 (thorough: ..1500) strings, each sorted under 6 configurations drawn from 10 parameter sets "
                        "(library front ends; tiny thresholds so that big steps, sequential sample sort, MKQS, insertion sort and work sharing all occur on small inputs) x LCP x "
-                       "threads x {random, PCT, run-first} schedules; non-trivial = at least 2 strings")
+                       "threads x {random, PCT, non-preemptive, run-first} schedules; collections of exactly smallsort_threshold strings (4, 32, 64, 128, 256, 4096) force the matching "
+                       "parameter set (one sequential-sample-sort job next to idle workers; the 4096-string ones run 16 more PCT schedules); non-trivial = at least 2 strings")
     # 1. the job graph: every interleaving of the step life-cycle for small constants
     for (w, st, lcp) in ([(2, 3, "FALSE"), (2, 3, "TRUE"), (2, 4, "FALSE")] if quick else [(2, 4, "FALSE"), (2, 4, "TRUE"), (3, 4, "FALSE"), (2, 5, "FALSE"), (3, 5, "TRUE")]):
         tlc_mc(ctx, PD, "PS5I", "mc_ps5_run.cfg", workers=NCPU, coverage=(st == 3), timeout=3000, cfg_text=MC_CFG % (w, st, lcp, "TRUE", "FALSE", INVS),
